@@ -9,6 +9,7 @@ package main
 //	block B  (thorough) arity 2 all callables x pool^2, arity 3 primary callables x pool^3  (pool without the huge-iteration values)
 //	block S  seeded sample: arity 2..4 positional + 0..2 keyword arguments, full pool
 import (
+	"encoding/base64"
 	"fmt"
 	"math"
 	"math/big"
@@ -282,7 +283,10 @@ func buildCallables() []callable {
 
 var kwNames = []string{"x", "key", "reverse", "default", "sep", "end", "start", "step", "indent", "prefix", "pairs", "iterable", "year", "location", "format", "maxsplit", "base", "a", "nosuchparam", "", "x"}
 
+var fixedTime = gotime.Unix(1700000000, 5).UTC()
+
 type callCase struct {
+	text     bool // block T: textTemplates[callable] applied to textStrings[args[0]]
 	callable int
 	args     []int
 	kwn      []string
@@ -299,7 +303,13 @@ type callMode struct {
 	nB3, nS   int64
 	nE        int64 // arity 2 over the boundary sub-pool (edge), all callables
 	nE3       int64 // arity 3 over the boundary sub-pool, primary callables
+	nT        int64 // block T (text.go): text-parsing built-ins x digit strings / truncations
+	tts       []textTemplate
+	tstr      []string
+	tpairs    [][2]int32
+	singleStr string
 	edge      []int
+	edge3     []int
 	fns       starlark.StringDict
 	single    *callCase
 	singleErr string
@@ -326,9 +336,26 @@ func newCallMode(o *opts) *callMode {
 	P := int64(len(m.pool))
 	Q := int64(len(m.small))
 	C := int64(len(m.cs))
+	m.tts = buildTextTemplates()
+	ds := digitStrings()
+	m.tstr = append(ds, truncations()...)
+	for ti, t := range m.tts {
+		n := len(m.tstr)
+		if digitsOnly[t.name] {
+			n = len(ds)
+		}
+		for si := 0; si < n; si++ {
+			m.tpairs = append(m.tpairs, [2]int32{int32(ti), int32(si)})
+		}
+	}
+	m.nT = int64(len(m.tpairs))
 	m.nA = C * (1 + P)
 	m.nE = C * int64(len(m.edge)*len(m.edge))
-	m.nE3 = int64(len(m.prim)) * int64(len(m.edge)*len(m.edge)*len(m.edge))
+	m.edge3 = m.edge
+	if len(m.edge3) > 8 {
+		m.edge3 = m.edge3[:8]
+	}
+	m.nE3 = int64(len(m.prim)) * int64(len(m.edge3)*len(m.edge3)*len(m.edge3))
 	if o.tier == "thorough" {
 		m.nE, m.nE3 = 0, 0 // covered by the full products
 		m.nB2 = C * Q * Q
@@ -348,12 +375,12 @@ func newCallMode(o *opts) *callMode {
 	m.fns = fns
 	if o.single != "" {
 		m.single = m.parseSingle(o.single)
-		m.nA, m.nB2, m.nB3, m.nS, m.nE, m.nE3 = 1, 0, 0, 0, 0, 0
+		m.nA, m.nB2, m.nB3, m.nS, m.nE, m.nE3, m.nT = 1, 0, 0, 0, 0, 0, 0
 	}
 	return m
 }
 
-func (m *callMode) Count() int64 { return m.nA + m.nE + m.nE3 + m.nB2 + m.nB3 + m.nS }
+func (m *callMode) Count() int64 { return m.nA + m.nT + m.nE + m.nE3 + m.nB2 + m.nB3 + m.nS }
 
 func (m *callMode) decode(i int64) callCase {
 	if m.single != nil {
@@ -370,6 +397,10 @@ func (m *callMode) decode(i int64) callCase {
 		return callCase{callable: int(c), args: []int{int(r - 1)}}
 	}
 	i -= m.nA
+	if i < m.nT {
+		return callCase{text: true, callable: int(m.tpairs[i][0]), args: []int{int(m.tpairs[i][1])}}
+	}
+	i -= m.nT
 	if i < m.nE {
 		E := int64(len(m.edge))
 		c := i / (E * E)
@@ -378,10 +409,10 @@ func (m *callMode) decode(i int64) callCase {
 	}
 	i -= m.nE
 	if i < m.nE3 {
-		E := int64(len(m.edge))
+		E := int64(len(m.edge3))
 		c := i / (E * E * E)
 		r := i % (E * E * E)
-		return callCase{callable: m.prim[c], args: []int{m.edge[r/(E*E)], m.edge[(r/E)%E], m.edge[r%E]}}
+		return callCase{callable: m.prim[c], args: []int{m.edge3[r/(E*E)], m.edge3[(r/E)%E], m.edge3[r%E]}}
 	}
 	i -= m.nE3
 	if i < m.nB2 {
@@ -423,12 +454,31 @@ func (m *callMode) decode(i int64) callCase {
 	return cc
 }
 
+func (m *callMode) textOf(cc callCase) string {
+	if m.single != nil {
+		return m.singleStr
+	}
+	return m.tstr[cc.args[0]]
+}
+
 func (m *callMode) Run(i int64) string {
 	cc := m.decode(i)
 	thread := &starlark.Thread{Name: "c02", Print: func(*starlark.Thread, string) {}}
 	thread.SetMaxExecutionSteps(200000)
 	c := &cctx{thread: thread, fns: m.fns}
 	defer c.done()
+	if cc.text {
+		v, err := m.tts[cc.callable].run(c, m.textOf(cc))
+		if err != nil {
+			_ = err.Error()
+			return "error"
+		}
+		if v == nil {
+			return "panic:builtin returned nil value and nil error"
+		}
+		_ = v.String()
+		return "value"
+	}
 	fn := m.cs[cc.callable].get(c)
 	args := make(starlark.Tuple, len(cc.args))
 	for k, a := range cc.args {
@@ -501,6 +551,9 @@ func findNil(v starlark.Value, depth int) string {
 }
 
 func (m *callMode) isHuge(cc callCase) bool {
+	if cc.text {
+		return false
+	}
 	for _, a := range cc.args {
 		if m.pool[a].huge {
 			return true
@@ -516,6 +569,11 @@ func (m *callMode) isHuge(cc callCase) bool {
 
 func (m *callMode) Describe(i int64) map[string]any {
 	cc := m.decode(i)
+	if cc.text {
+		s := m.textOf(cc)
+		return map[string]any{"callable": "text:" + m.tts[cc.callable].name, "text_b64": base64.StdEncoding.EncodeToString([]byte(s)),
+			"call": fmt.Sprintf("%s with s = %s", m.tts[cc.callable].name, truncQ(s)), "args": []string{}, "kwargs": [][2]string{}, "huge": false}
+	}
 	var args []string
 	for _, a := range cc.args {
 		args = append(args, m.pool[a].name)
@@ -539,9 +597,20 @@ func (m *callMode) parseSingle(s string) *callCase {
 		Callable string      `json:"callable"`
 		Args     []string    `json:"args"`
 		Kwargs   [][2]string `json:"kwargs"`
+		Text     string      `json:"text_b64"`
 	}
 	if err := jsonUnmarshal(s, &d); err != nil {
 		panic(err)
+	}
+	if strings.HasPrefix(d.Callable, "text:") {
+		b, _ := base64.StdEncoding.DecodeString(d.Text)
+		m.singleStr = string(b)
+		for i, t := range m.tts {
+			if "text:"+t.name == d.Callable {
+				return &callCase{text: true, callable: i, args: []int{0}}
+			}
+		}
+		panic("replay: unknown text template " + d.Callable)
 	}
 	cc := &callCase{callable: -1}
 	for i, c := range m.cs {
@@ -573,6 +642,9 @@ func (m *callMode) parseSingle(s string) *callCase {
 // Key: the callable (without the receiver variant) and what went wrong.
 func (m *callMode) Key(i int64, kind, detail string) string {
 	cc := m.decode(i)
+	if cc.text {
+		return "call:text:" + m.tts[cc.callable].name + ":" + kind + ":" + shortDetail(detail)
+	}
 	name := m.cs[cc.callable].name
 	if at := strings.Index(name, "@"); at >= 0 {
 		name = name[:at]
@@ -598,8 +670,19 @@ func (m *callMode) Timeout(i int64) time.Duration {
 	return 0
 }
 
+func truncQ(s string) string {
+	q := fmt.Sprintf("%q", s)
+	if len(q) > 120 {
+		q = q[:120] + fmt.Sprintf("...(%d bytes)", len(s))
+	}
+	return q
+}
+
 func (m *callMode) Dist(i int64) string {
 	cc := m.decode(i)
+	if cc.text {
+		return "text"
+	}
 	return fmt.Sprintf("arity%d+kw%d", len(cc.args), len(cc.kwn))
 }
 
